@@ -71,6 +71,9 @@ mod utils;
 
 pub mod errors;
 
+#[cfg(feature = "verif-hooks")]
+pub mod verif_hooks;
+
 #[cfg(feature = "train")]
 mod tag_trainer;
 #[cfg(feature = "train")]
